@@ -14,7 +14,7 @@ RULE = (
     'random prefixes (empty, ASCII, non-ASCII, clashing), built through the constructors or through with_prefix; '
     'amplitudes of either sign and coefficients log-uniform 1e-3..1e3, locations uniform / log-uniform up to 1e6, '
     'scales log-uniform 1e-6..1e6 plus the guarded region (0, negative, <1e-15), fractions in [0,1] incl. the ends; '
-    'fwhm() is also called with the full parameter dictionary of multi-peak models (2-4 peaks + background; prefixes of equal '
+    'fwhm() (also of models derived by chains of with_prefix from the prefixes of the other peaks) is called with the full parameter dictionary of multi-peak models (2-4 peaks + background; prefixes of equal '
     'length p1_/p2_, nested p_/p_1_/p_1_2_, empty mixed with non-empty, prefixes that look like parameter names); '
     'guess(data, coord=c) is called for every coordinate c of data carrying 2-3 coordinates of different units and values; '
     'the oracle also passes parameters in compatible but different units (loc / scale in mm|um|nm with x in m, scaled amplitude and '
@@ -1036,23 +1036,39 @@ def check_fwhm_foreign(a):
     import scipp as sc
 
     full = {k: sc.scalar(v, unit=sc_unit(tuple(u))) for k, v, u in a['params']}
-    for t in a['leaves']:
+    chains = a.get('chains') or [[] for _ in a['leaves']]
+    for t, chain in zip(a['leaves'], chains):
         t = tuple_tree(t)
         if t[0] == 'P':
             continue
-        m = build(t)
         pre = _prefix(t)
+        how = ''
+        if chain:
+            # a model DERIVED by with_prefix: built with the first prefix of the chain (often the prefix of another peak of the
+            # dictionary, or ''), re-prefixed along the chain, finally given its own prefix
+            m = build(_with_prefix(t, chain[0]))
+            for q in list(chain[1:]) + [pre]:
+                m = m.with_prefix(q)
+            how = f' (derived by with_prefix along {list(chain) + [pre]!r})'
+        else:
+            m = build(t)
+        if m.param_names != {pre + n for n in own_names(t)}:
+            return f'peak {pre!r}{how} has param_names {sorted(m.param_names)}'
         own = {k: full[k] for k in m.param_names}
         try:
             fw_full = m.fwhm(full)
         except Exception as e:  # noqa: BLE001
-            return f'fwhm of peak {pre!r} with the full parameter dictionary raised {type(e).__name__}: {e}'
-        fw_own = m.fwhm(own)
+            return f'fwhm of peak {pre!r}{how} with the full parameter dictionary raised {type(e).__name__}: {e}'
+        try:
+            fw_own = m.fwhm(own)
+        except Exception as e:  # noqa: BLE001
+            return f'fwhm of peak {pre!r}{how} with its own parameters {sorted(own)} raised {type(e).__name__}: {e}'
+        pre = pre + ''
         scale = own[pre + 'scale']
         if fw_full.unit != scale.unit:
             return f'FWHM of peak {pre!r} has unit {fw_full.unit}, its scale has {scale.unit}'
         if bits(float(fw_full.value)) != bits(float(fw_own.value)):
-            return (f'peak {pre!r} (scale {float(scale.value)!r}) reports FWHM {float(fw_full.value)!r} when given the parameters of all '
+            return (f'peak {pre!r}{how} (scale {float(scale.value)!r}) reports FWHM {float(fw_full.value)!r} when given the parameters of all '
                     f'peaks {sorted(full)} but {float(fw_own.value)!r} when given its own')
         mu, h = float(own[pre + 'loc'].value), float(fw_full.value) / 2
         x = sc.array(dims=['x'], values=np.array([mu, mu + h, mu - h]), unit=scale.unit)
@@ -1061,8 +1077,36 @@ def check_fwhm_foreign(a):
         tol = 1e-11 + 8 * float(np.spacing(abs(mu) + h)) / float(scale.value)
         for i in (1, 2):
             if not abs(y[i] - y[0] / 2) <= tol * abs(y[0] / 2):
-                return (f'peak {pre!r}: f(loc)={float(y[0])!r}, f(loc{"+-"[i - 1]}fwhm/2)={float(y[i])!r} with the FWHM '
+                return (f'peak {pre!r}{how}: f(loc)={float(y[0])!r}, f(loc{"+-"[i - 1]}fwhm/2)={float(y[i])!r} with the FWHM '
                         f'{float(fw_full.value)!r} reported for the full parameter dictionary (tolerance {tol:.3g})')
+    # the peaks combined into one composite and re-prefixed as a whole: same values as the composite built with that prefix
+    peaks = [tuple_tree(t) for t in a['leaves']]
+    if a.get('outer') is not None and len(peaks) >= 2:
+        from scippneutron.peaks import model as M
+
+        a0, b0 = a['outer']
+        comp = build(peaks[0])
+        for t in peaks[1:]:
+            comp = comp + build(t)
+        derived = M.CompositeModel(comp._left, comp._right, prefix=a0).with_prefix(b0) if hasattr(comp, '_left') else comp.with_prefix(b0)
+        direct = comp.with_prefix(b0)
+        xunit = next((v.unit for k, v in full.items() if k.endswith('loc')), sc.Unit('dimensionless'))
+        xs = sc.array(dims=['x'], values=np.array(a.get('xs') or [0.0, 1.0]), unit=xunit)
+        kw = {b0 + k: v for k, v in full.items()}
+        if derived.param_names != set(kw):
+            return f'composite re-prefixed {a0!r} -> {b0!r} has param_names {sorted(derived.param_names)}, expected {sorted(kw)}'
+        try:
+            with np.errstate(all='ignore'):
+                r1, r2 = derived(xs, **kw), direct(xs, **kw)
+        except sc.UnitError:
+            r1 = r2 = None
+        if r1 is not None and not (r1.unit == r2.unit and np.array_equal(r1.values, r2.values, equal_nan=True)):
+            return f'composite re-prefixed {a0!r} -> {b0!r} evaluates to {list(r1.values)}, built with {b0!r}: {list(r2.values)}'
+        try:
+            derived.fwhm(kw)
+            return 'composite reports an FWHM'
+        except NotImplementedError:
+            pass
     return None
 
 
@@ -1170,7 +1214,21 @@ def oracle(ctx, deep):
             b['ts'] = [t for t in b['ts'] if (b['mu'] + t) - b['mu'] == t and b['mu'] - (b['mu'] - t) == t]
             _run(ctx, 'C16:symmetry', b)
         leaves, plist, _, _ = multi_peak(rng)
-        _run(ctx, 'C16:fwhm-foreign-parameter', {'leaves': [list(t) for t in leaves], 'params': [(k, v, list(u)) for k, v, u in plist]})
+        pres = [_prefix(t) for t in leaves]
+        chains = []
+        for t in leaves:
+            others = [q for q in pres if q != _prefix(t)] + ['', 'tmp_']
+            r = rng.random()
+            if r < 0.35:
+                chains.append([])                                             # built directly
+            elif r < 0.65:
+                chains.append([rng.choice(others)])                           # A -> own
+            elif r < 0.85:
+                chains.append([rng.choice(others), rng.choice(others)])       # A -> B -> own
+            else:
+                chains.append([_prefix(t), rng.choice(['', rng.choice(others)])])   # own -> '' / other -> own
+        _run(ctx, 'C16:fwhm-foreign-parameter', {'leaves': [list(t) for t in leaves], 'params': [(k, v, list(u)) for k, v, u in plist],
+                                                 'chains': chains, 'outer': [rng.choice(['', 'old_', 'm_']), rng.choice(['', 'new_', 'm_', 'fit.'])]})
         # guess(data, coord=<every coordinate>)
         npts = rng.choice([12, 30, 60])
         tof = sorted(rng.uniform(1000.0, 20000.0) for _ in range(npts))
